@@ -211,6 +211,20 @@ def clear_complete(repo: Repo) -> RuleRun:
             n,
             key=f"overreach:Mesh.{tgt_attr}",
         )
+    # containers of the mesh itself that assemble() fills in place (a record of what was assembled): clear() must empty them
+    own_filled = {a_ for a_ in _mutated_attrs(repo, asm, mesh) if a_ not in lists and not a_.endswith("(dict-merge)")}
+    emptied = set()
+    for n in walk_shallow(clear.node):
+        if isinstance(n, ast.Call) and isinstance(n.func, ast.Attribute) and n.func.attr == "clear":
+            ch = attr_chain(n.func.value) or ""
+            if ch.startswith("self.") and ch.count(".") == 1:
+                emptied.add(ch.split(".")[1])
+        elif isinstance(n, (ast.Assign, ast.AnnAssign)):
+            for t in n.targets if isinstance(n, ast.Assign) else [n.target]:
+                if isinstance(t, ast.Attribute) and attr_chain(t.value) == "self":
+                    emptied.add(t.attr)
+    for a_ in sorted(own_filled):
+        r.check(a_ in emptied, clear, f"self.{a_} is filled by assemble() and emptied by clear()", f"assemble() adds to self.{a_} on every run but Mesh.clear does not empty it: after clear() + assemble() (and after backport()) it holds the entries of both assemblies - blocks are paired with the wrong operations", clear.node, key=f"own-container:{a_}")
     # state flags: whatever assemble() assigns on the mesh itself, clear() must reset
     def assigned(fn):
         out = {}
